@@ -1,5 +1,6 @@
 pub mod bep42;
 pub mod codec;
+pub mod handler;
 pub mod storage;
 pub mod table;
 pub mod tid;
@@ -11,6 +12,7 @@ pub fn make(name: &str) -> Option<Box<dyn Engine>> {
     match name {
         "bep42" => Some(Box::new(bep42::Bep42::default())),
         "codec" => Some(Box::new(codec::CodecEngine::default())),
+        "handler" => Some(Box::new(handler::HandlerEngine::default())),
         "storage" => Some(Box::new(storage::StorageEngine::default())),
         "table" => Some(Box::new(table::TableEngine::default())),
         "tid" => Some(Box::new(tid::Tid::default())),
